@@ -69,7 +69,9 @@ MkMethod(c, mc, k) ==
      \* rendering only: adjacent parameters of one type are declared as a Go identifier list - func (a, b, c string, d int) -
      \* (the documented / bound order is the signature order whichever way the author groups the names)
      \* groups = <<3, 1>>: the first three names share one identifier list, the fourth stands alone; <<>> = one name per declaration
-     groups |-> IF "groups" \in DOMAIN mc THEN mc.groups ELSE <<>>]
+     groups |-> IF "groups" \in DOMAIN mc THEN mc.groups ELSE <<>>,
+     \* layout only: every name of the signature on a line of its own (a multi-name declaration then spans several lines)
+     multiline |-> ("multiline" \in DOMAIN mc /\ mc.multiline)]
 
 MethodsOfLast == IF proj.ctrls = <<>> THEN 0
                  ELSE Cardinality({i \in DOMAIN proj.methods : proj.methods[i].ctrl = proj.ctrls[Len(proj.ctrls)].id})
@@ -92,7 +94,11 @@ AddCtrl(cc) ==
 \* every declared-looking type (pkg.Name with pkg one of the project's packages) a method mentions must be declared in the project
 Mentioned(mc) == (IF "sig" \in DOMAIN mc THEN {CoreType(x.type) : x \in Range(mc.sig)} ELSE {}) \cup {CoreType(r) : r \in Range(mc.ret)}
 LooksDeclared(n) == Len(n) > 3 /\ SubSeq(n, 1, 3) \in {"p1.", "p2."}
-TypesKnown(mc) == \A n \in Mentioned(mc) : LooksDeclared(n) => IsDeclared(proj, n)
+\* an instantiated generic - p1.Gen[[]string] - is known when its base - p1.Gen - is declared
+RECURSIVE FirstBracket(_, _)
+FirstBracket(n, i) == IF i > Len(n) THEN 0 ELSE IF Ch(n, i) = "[" THEN i ELSE FirstBracket(n, i + 1)
+GenericBase(n) == IF FirstBracket(n, 1) = 0 THEN n ELSE SubSeq(n, 1, FirstBracket(n, 1) - 1)
+TypesKnown(mc) == \A n \in Mentioned(mc) : LooksDeclared(n) => IsDeclared(proj, GenericBase(n))
 
 \* Go forbids import cycles: when p2 holds model types (which p1's types may use), a controller in p2 mentions no p1 type
 NoCycle(mc) == (proj.ctrls[Len(proj.ctrls)].pkg = "p2" /\ \E i \in DOMAIN proj.types : proj.types[i].pkg = "p2")
